@@ -143,6 +143,12 @@ Section C02.
     exact (ignored_accept b64dec loads sig_ok now_s now_us exec files files' fn j md H1 H2 recs missing a sum tr).
   Qed.
 
+  (** ... and so for any number of such files, added (or removed) one after the other *)
+  Theorem C02_ignored_many_accept : forall a files files' recs missing sum tr,
+    bad_files_added b64dec loads sig_ok now_s now_us a files files' ->
+    (vbody files recs missing a = (Ok sum, tr) <-> vbody files' recs missing a = (Ok sum, tr)).
+  Proof. exact (ignored_many_accept b64dec loads sig_ok now_s now_us exec). Qed.
+
   (** the guard "distinct step names" holds for every layout loaded from a file (Layout validation),
       before and after parameter substitution *)
   Theorem C02_names_guard_holds : forall j a l, from_dict b64dec loads j = Ok (a_md a) ->
@@ -210,6 +216,7 @@ Print Assumptions C02_counts_once.
 Print Assumptions C02_never_supplies.
 Print Assumptions C02_ignored.
 Print Assumptions C02_ignored_accept.
+Print Assumptions C02_ignored_many_accept.
 Print Assumptions C02_names_guard_holds.
 Print Assumptions C02_expired_key.
 Print Assumptions C02_family_mismatch_refuted.
